@@ -94,7 +94,21 @@ static void g_reclaim(guard_t* g) {
 #define G_acquire(g, cell, mo) g_acquire(&(g), &(cell), (mo))
 #define G_reset(g) ((g) = 0)
 #define G_reclaim(g) g_reclaim(&(g))
-#define G_from_raw(p) ((guard_t)(p))
+/* guard_ptr(raw pointer): no validation is possible, so it is only legitimate while p is PINNED: p is null, or this call's own
+ * not yet freed new node, or the frozen successor (c->next carries the delete mark, so it can never change) of a node c that this
+ * operation has not yet spliced out itself - as long as c is in the list its successor cannot be unlinked, hence not retired or freed;
+ * if c was already unlinked by somebody else the following unlink CAS fails and the guard is dropped unused.  After the operation's own
+ * successful unlink CAS nothing pins the successor any more: under hazard pointers / eras it may be erased and freed before the guard
+ * exists (erase(iterator): the successor guard must be taken BEFORE the unlink CAS).  Same contract as hms.guard.raw_pinned in unit hms. */
+_Bool g_unlinked_by_us[NP];     /* set by mon_cas when a CAS of the operation under test splices a marked node out */
+static guard_t g_from_raw(mptr p) {
+  _Bool pin = MP_get(p) == 0 || (MP_get(p) == W(IN) && g_alloc && !g_freed);
+  for (unsigned c = 0; c < NP; c++)
+    if (MP_mark(pool[c].next) == 1 && MP_get(pool[c].next) == MP_get(p) && !g_unlinked_by_us[c] && !(c == IN && !g_published)) pin = 1;
+  XV_OBL("hmm.guard.raw_pinned", pin);
+  return (guard_t)p;
+}
+#define G_from_raw(p) g_from_raw(p)
 
 /* ---- hash, bucket map, order: the real texts (lowered.h), selected by the memoize_hash policy ---- */
 size_t __CPROVER_uninterpreted_hashfn(kkey_t);
@@ -236,6 +250,8 @@ static void mon_cas(void* addr, uint64_t e, uint64_t d, _Bool ok, int o) {
     }
   }
   if (ok && MP_get(d) == W(IN)) g_published = 1;
+  if (ok && is_node((mptr)e) && MP_mark(e) == 0 && idx_of((mptr)e) < NP && MP_mark(pool[idx_of((mptr)e)].next) == 1 && (mptr)d == MP_get(pool[idx_of((mptr)e)].next))
+    g_unlinked_by_us[idx_of((mptr)e)] = 1;      /* an unlink of node e (see g_from_raw) */
 }
 static void mon_store(void* addr, uint64_t v, int o) { }
 static void mon_reclaim(guard_t g) {
